@@ -379,6 +379,12 @@ def conc_stage(tier, seed, key):
         jobs += js
     jobs += gen.directed(start_id=nid, seed=seed, tier=tier)
     jobs += gen.sandwich(tier)
+    import cover
+    try:
+        cov_jobs, cov_stats = cover.jobs(tier, seed, wd)
+    except RuntimeError as e:
+        raise ToolError(str(e))
+    jobs += cov_jobs
     for i, j in enumerate(jobs):
         j["id"] = i
     with open(os.path.join(wd, "jobs.ndjson"), "w") as f:
@@ -404,7 +410,16 @@ def conc_stage(tier, seed, key):
         out_v.append({k2: v[k2] for k2 in ("id", "prop", "why", "spec", "ev", "fam", "key", "ctx") if k2 in v} | ({"replay": v["replay"]} if "replay" in v else {}))
     for (jid, kind, msg) in res["incidents"]:
         log("incident: job %d %s %s" % (jid, kind, msg))
-    summary = {"execs": res["execs"], "events": res["events"], "viols": out_v, "files": res["files"],
+    reached = missed = aligned = 0
+    for p in res["files"]:
+        for line in open(p):
+            if line.startswith('{"e":"end"') and '"segments"' in line:
+                d = json.loads(line)["info"]
+                reached += d["reached"]
+                missed += d["missed"]
+                aligned += d["missed"] == 0
+    cov_stats.update({"segments_reached": reached, "segments_missed": missed, "behaviours_fully_aligned": aligned})
+    summary = {"execs": res["execs"], "events": res["events"], "viols": out_v, "files": res["files"], "tlc_replay": cov_stats,
                "wall": time.time() - t0, "fams": {f: n for f, n in plan}, "incidents": res["incidents"]}
     with open(marker, "w") as f:
         json.dump(summary, f)
@@ -479,6 +494,7 @@ def check(pid, tier, seed):
                 elif v["prop"] == "HARNESS":
                     raise ToolError("harness/oracle inconsistency: %s %s" % (v["why"], json.dumps(v["ev"])))
             cov["families"] = summ["fams"]
+            cov["tlc_behaviours_replayed_on_impl"] = summ.get("tlc_replay", {})
             cov["events_validated"] = summ["events"]
         extra = props.EXTRA.get(pid)
         if extra:
